@@ -1,10 +1,12 @@
 #!/bin/sh
-# tools/run_all.sh <tier> [checks...] : run the registered commands one after the other, log per check
+# tools/run_all.sh <tier> [checks...] : run the registered commands one after the other, log per check (real exit codes)
 T="${1:-quick}"; shift
 L=/verif/scratch/run_$T.log; mkdir -p /verif/scratch; : > $L
 for p in ${@:-C01 C02 C03 C04 C05 C06 C07 C08 C09 C10 C11 C12 C13 C14 C15 C16 C17 C18 C19 C20}; do
   s=$(date +%s)
-  ./check $p --tier $T 2>&1 | grep -v domRec | tail -4 >> $L
-  echo "$p exit=$? took $(( $(date +%s) - s ))s" >> $L
+  ./check $p --tier $T > /verif/scratch/run_one.out 2>&1; rc=$?
+  grep -v domRec /verif/scratch/run_one.out | tail -4 | cut -c1-400 >> $L
+  echo "$p exit=$rc took $(( $(date +%s) - s ))s" >> $L
 done
+rm -f /verif/scratch/run_one.out
 echo finished >> $L
